@@ -38,8 +38,12 @@ meta = {
     "needs_to_manifest": (notes.split("\n\n")[1] if notes.count("\n\n") > 1 else notes)[:1200],
     "confirmation": {k: conf.get(k) for k in ("confirmed", "patch_applies", "builds", "demo_without_patch_rc", "demo_with_patch_rc", "suite_ok", "suite_failed_packages", "demo_cmd", "error")},
     "verdict": verdict,
+    "base": os.environ.get("SEEDRUN_BASE", "HEAD of /repo at evaluation time"),
     "violation_classes": classes[:20],
 }
+for k in ("caught_by", "note", "superseded_by_fix", "owner_property"):
+    if prev.get(k):
+        meta[k] = prev[k]
 if "--skip-confirm" in sys.argv and prev.get("confirmation"):
     meta["confirmation"] = prev["confirmation"]
 meta["history"] = prev.get("history", [])
